@@ -11,6 +11,7 @@ import (
 	"io"
 	"net"
 	"net/http"
+	"os"
 	"runtime"
 	"strings"
 	"sync"
@@ -35,6 +36,8 @@ const (
 	handlerTimeout = 15 * time.Second // handler's terminal event after the client finished
 	stepTimeout    = 10 * time.Second // one lock-step reply
 )
+
+var debugTrunc = os.Getenv("VERIF_DEBUG_TRUNC") != ""
 
 var errAbort = errors.New("verif: client aborts the stream")
 
@@ -192,6 +195,10 @@ func (g *gen) execReal(c *Case) (vs []viol, outcome string) {
 		return append(res.vs, viol{c.prefix() + ":panic:" + c.Sched, "server logged: " + msg}), "panic"
 	}
 	s := rc.snap()
+	if debugTrunc && c.Abort != "" {
+		ex := c.expectation()
+		fmt.Fprintf(os.Stderr, "abort %s %s %s frag=%d trunc=%d/%d class=%s n=%d -> recv=%d err=%v\n", c.Lane, c.prefix(), c.Abort, c.Frag, c.Trunc, len(c.Body), ex.class, ex.n, len(s.recv), s.recvErr)
+	}
 	jv, outcome := e.judge(c, s, res.co, res.clientSaw)
 	return append(res.vs, jv...), outcome
 }
@@ -656,10 +663,46 @@ func wsFrames(c *Case, mask func() [4]byte) ([]byte, []Seg) {
 	return out, segs
 }
 
+// wsClient is a client WebSocket connection. Like wire.WSDial it first drains
+// what gobwas/ws read past the handshake response; it also keeps the TCP
+// connection for half-closing.
+type wsClient struct {
+	net.Conn
+	r   io.Reader
+	tcp *net.TCPConn
+}
+
+func (c *wsClient) Read(p []byte) (int, error) { return c.r.Read(p) }
+
+func wsDial(ctx context.Context, url string, hdr http.Header) (*wsClient, error) {
+	out := &wsClient{}
+	d := ws.Dialer{Header: ws.HandshakeHeaderHTTP(hdr)}
+	d.NetDial = func(ctx context.Context, network, addr string) (net.Conn, error) {
+		var nd net.Dialer
+		c, err := nd.DialContext(ctx, network, addr)
+		if tc, ok := c.(*net.TCPConn); ok {
+			out.tcp = tc
+		}
+		return c, err
+	}
+	conn, br, _, err := d.Dial(ctx, url)
+	if err != nil {
+		return nil, err
+	}
+	out.Conn, out.r = conn, conn
+	if br != nil {
+		buf := make([]byte, br.Buffered())
+		io.ReadFull(br, buf)
+		ws.PutReader(br)
+		out.r = io.MultiReader(bytes.NewReader(buf), conn)
+	}
+	return out, nil
+}
+
 func (g *gen) doWS(c *Case, srv *wire.Server, id string, rc *rec) realResult {
 	ctx, cancel := context.WithTimeout(context.Background(), opTimeout)
 	defer cancel()
-	conn, err := wire.WSDial(ctx, "ws://"+srv.Addr+c.wsPath(), http.Header{"X-Case": {id}, "X-Ws": {"1"}})
+	conn, err := wsDial(ctx, "ws://"+srv.Addr+c.wsPath(), http.Header{"X-Case": {id}, "X-Ws": {"1"}})
 	if err != nil {
 		return realResult{incon: "websocket dial: " + err.Error()}
 	}
@@ -716,6 +759,11 @@ func (g *gen) doWS(c *Case, srv *wire.Server, id string, rc *rec) realResult {
 		if _, err := conn.Write(c.sentBody()); err != nil {
 			return realResult{incon: "websocket write: " + err.Error()}
 		}
+		// FIN, not RST: everything written reaches the server, then EOF
+		if conn.tcp != nil {
+			conn.tcp.CloseWrite()
+			io.Copy(io.Discard, conn)
+		}
 		conn.Close()
 		return realResult{clientSaw: false}
 	}
@@ -742,6 +790,9 @@ func (g *gen) doWS(c *Case, srv *wire.Server, id string, rc *rec) realResult {
 	case c.Step:
 		for i, sg := range c.Segs {
 			if _, err := conn.Write(c.Body[sg.Start:sg.End]); err != nil {
+				if c.StopAfter > 0 && i >= c.StopAfter {
+					break // the handler has ended the call already
+				}
 				return realResult{incon: "websocket write: " + err.Error()}
 			}
 			if c.StopAfter > 0 && i >= c.StopAfter {
